@@ -31,10 +31,14 @@ def models(tier):
     if tier == "quick":
         return [("layouts + schedules, 2 boxes", cfg(MaxLev=1, MaxBox=2, MaxFile=2, SchedMode='"all"')),
                 ("two levels", cfg(MaxLev=2, MaxBox=1, MaxFile=1)),
+                # another number of species: conversions of checkpoints with 2 and with 3 species alternate in one process
+                ("three species", cfg(NS=3, MaxLev=1, MaxBox=2, MaxFile=2)),
                 ]
     return [("layouts, 2 levels", cfg(MaxLev=2, MaxBox=2, MaxFile=2)),
             ("layouts, 3 boxes", cfg(MaxLev=1, MaxBox=3, MaxFile=2)),
-            ("schedules, 3 boxes", cfg(MaxLev=1, MaxBox=3, MaxFile=3, SchedMode='"all"', W=3))]
+            ("schedules, 3 boxes", cfg(MaxLev=1, MaxBox=3, MaxFile=3, SchedMode='"all"', W=3)),
+            ("three species", cfg(NS=3, MaxLev=2, MaxBox=2, MaxFile=2)),
+            ("one species", cfg(NS=1, MaxLev=1, MaxBox=2, MaxFile=2))]
 
 
 def expected_comp(tok, data, box, ng, ns):
@@ -185,8 +189,14 @@ def run(chk, replay):
     cap = 800 if chk.tier == "quick" else 12000
     chosen = util.select(scenarios, cap, chk.rng)
     chk.exhaustive = len(chosen) == len(scenarios)
+    # alternate the numbers of species: whatever one conversion leaves behind in the process meets a different checkpoint next
+    by_ns = {}
+    for sc in chosen:
+        by_ns.setdefault(sc["ns"], []).append(sc)
+    groups = [by_ns[k] for k in sorted(by_ns)]
+    chosen = [g[i % len(g)] for i in range(max(len(g) for g in groups)) for g in groups if i < len(g) or len(g) < 40]
     for i, sc in enumerate(chosen):
-        src = "plotfile" if i % 2 else "list"
+        src = "plotfile" if (i // 2) % 2 else "list"
         cfgseed = chk.rng.randrange(1 << 30)
         v = run_scenario(chk, sc, cfgseed, src)
         sigs = util.sig_str(sc["sig"], src, 1 + cfgseed % 3)
